@@ -33,9 +33,30 @@ import Isotp.Proofs.DuplexLive7
   (`Rep`, `rx_sim`, `tx_sim`, `pass_sim`, `round_sim`), so both transfers complete on the network of the driver as soon
   as the abstract machine of the frame counts / blocksizes / "STmin = 0" bits reaches its final state.
 
-  Results:
-  * `duplex_of_abstract`: the reduction, stated on `Net`.
-  * ...
+  Results (all on `Net`, for ANY addressing modes, tx_data_length / padding / CAN FD settings, payload bytes):
+  * `duplex_of_abstract`: the reduction — if the abstract machine is final after `N0` rounds, then for every `N ≥ N0`
+    both transfers have completed after `N` canonical rounds (`CompletesIn`, `Completed2`: B's rx queue = `[p]`, A's
+    = `[q]`, both requests completed with success, both layers idle in both directions, nothing queued or pending,
+    links and inboxes empty, no error event on either side, clock = `N·dt`).
+  * `duplex_completes_partial`: ANY blocksizes, ANY valid STmin (with or without override), Single Frame or segmented
+    in either direction — both transfers complete within `roundsBound = 4·(nA + nB) + 2` rounds (an upper bound, not the
+    exact count), PROVIDED the four timeouts cover `roundsBound` ticks (instead of 3 resp. 2). This is the general
+    statement except for the timeout margin; in particular the schedule never deadlocks (`progress_each_round`: every
+    round strictly decreases the potential 3·(frames to send) + (frames to receive) + 2·[waiting for a Flow Control] +
+    [request queued], summed over both directions, until both transfers are complete).
+    Proof: `DirInv` (per direction: the data frames in transit are exactly the frames sent and not yet consumed, in
+    order; exactly one Flow Control is requested / in transit / in the mailbox iff the sender waits for it and the
+    receiver has consumed the block; sender and receiver agree on the block boundaries) is preserved by every step of
+    `_process_rx` / `_process_tx`, no step fails, the loops of `process()` have enough fuel, and if neither layer has
+    anything to do both transfers are complete (Proofs/DuplexLive3–5).
+  * `duplex_completes_bs0`: blocksize 0 and STmin 0 on both sides, any two segmented messages: EXACTLY three rounds
+    (`bs0_not_before`: not two), with N_Cr covering one tick at A, TWO at B, N_Bs one tick — sharp
+    (`one_directional_timing_not_enough`).
+  * `duplex_completes_small`: the sharp timeouts (3 / 2 ticks) for all messages of 1..5 frames in each direction and
+    blocksizes 0..3 on each side, any STmin (1600 abstract configurations decided by kernel computation,
+    Proofs/DuplexLive6).
+  What is missing for `C10live_statement` itself: an invariant bounding the AGE of the running N_Cr / N_Bs timers by 3 /
+  2 rounds for all parameters (the case analysis is sketched above; every run we computed respects it).
 -/
 namespace Isotp.C10live
 open Isotp Isotp.State Isotp.Spec Isotp.Proofs Isotp.Lockstep Isotp.DuplexLive
@@ -224,10 +245,16 @@ theorem bs0_not_before (ca cb : Cfg) (aa ab : Addr) (idA idB : Nat) (p q : Bytes
     rw [eA, eB]
     simp only [absRounds, round1 _ _ 1 1 2 1 hnA hnB, round2 _ _ 1 1 2 1 hnA hnB (Nat.le_refl _) (by omega) (Nat.le_refl _)]
   obtain ⟨hl, -⟩ := rounds_sim hA hB 2 {} _ _ (netRep_init SA idB 2 1 hA hB) hr
-  have ha := hl.a.rx
-  have hb := hl.b.rx
-  refine ⟨_, _, _, _, _, _, startNet2_eq ca cb aa ab idA p idB q haccA haccB, canonRounds_toNet dt 2 _, rfl,
-    ha.2.2.2.2.2.2.2.1, hb.2.2.2.2.2.2.2.1, ha.1, hb.1⟩
+  have hc := canonRounds_toNet dt 2 (pair2 ca cb aa ab idA p idB q)
+  have hdt : SA.dt = dt := rfl
+  rw [hdt] at hl
+  generalize Pair.rounds dt 2 (pair2 ca cb aa ab idA p idB q) = rr at hc hl
+  obtain ⟨qq, eA', eB'⟩ := rr
+  have ha : RxRep SA (.S 0 (some 1)) (rxV (enter _ qq.a)) := hl.a.rx
+  have hb : RxRep (sideB SA idB 2 1) (.S 0 (some 0)) (rxV (enter _ qq.b)) := hl.b.rx
+  obtain ⟨a1, -, -, -, -, -, -, a8, -⟩ := ha
+  obtain ⟨b1, -, -, -, -, -, -, b8, -⟩ := hb
+  exact ⟨_, _, _, _, qq.a, qq.b, startNet2_eq ca cb aa ab idA p idB q haccA haccB, hc, rfl, a8, b8, a1, b1⟩
 
 /-- **No deadlock on this schedule.** Under the hypotheses of `duplex_completes_partial`, after any number `i` of
     rounds the network of the driver is described (`NetRep`: field by field, `Rep`) by the state `ni` of the abstract
@@ -337,6 +364,38 @@ example : CompletesIn (exC 2 1 1000000000 1000000000) (exC 3 1 1000000000 100000
 example : CompletesIn (exC 0 0 3 2) (exC 0 0 3 2) exAddrA exAddrB 1 exP 2 [1, 2, 3, 4, 5, 6, 7, 8, 9] 1 12 :=
   duplex_completes_small _ _ _ _ 1 2 _ _ _ exDuplex_sharp (by decide) (by decide) (by decide) (by decide) (by decide)
     (by decide) 12 (by decide)
+
+/-- … blocksize 0, STmin 0 on both sides, tick 1 ns, N_Cr = 1 tick at A and 2 ticks at B, N_Bs = 1 tick -/
+theorem exDuplex_bs0 : Duplex (exC 0 0 1 1) (exC 0 0 2 1) exAddrA exAddrB exP exQ 1 1 1 2 1 :=
+  ⟨by decide, by decide, by decide, by decide, by decide, by decide, by decide, by decide, by decide, by decide,
+   by decide, by decide, by decide, by decide, by decide, by decide, by decide, by decide, by decide, by decide,
+   by decide, by decide, by decide, by decide, by decide, by decide, by decide, by decide⟩
+
+example : CompletesIn (exC 0 0 1 1) (exC 0 0 2 1) exAddrA exAddrB 1 exP 2 exQ 1 3 :=
+  duplex_completes_bs0 _ _ _ _ 1 2 _ _ _ exDuplex_bs0 rfl rfl (by decide) (by decide) (by decide) (by decide)
+    (by decide) (by decide) 3 (Nat.le_refl 3)
+
+example : ∃ d0 d evA evB a b, startNet2 (exC 0 0 1 1) (exC 0 0 2 1) exAddrA exAddrB 1 exP 2 exQ = some (d0, none, none) ∧
+    canonRounds 1 2 d0 = some (d, evA, evB) ∧ d.layers = #[a, b] ∧ a.rxQueue = [] ∧ b.rxQueue = [] ∧
+    a.rxState = .waitCf ∧ b.rxState = .waitCf :=
+  bs0_not_before _ _ _ _ 1 2 _ _ _ exDuplex_bs0 rfl rfl (by decide) (by decide) (by decide) (by decide)
+    (by decide) (by decide)
+
+/-- the reduction, used directly: the abstract machine of this configuration (3 and 2 frames, blocksize 0, STmin 0,
+    timeouts of 3 / 2 ticks) is final after 3 rounds -/
+example : CompletesIn (exC 0 0 3 2) (exC 0 0 3 2) exAddrA exAddrB 1 exP 2 [1, 2, 3, 4, 5, 6, 7, 8, 9] 1 3 :=
+  duplex_of_abstract _ _ _ _ 1 2 _ _ _ 3 2 3 2 exDuplex_sharp (by decide) (by decide) 3 (by decide +kernel) 3
+    (Nat.le_refl 3)
+
+/-- the hypotheses in the vocabulary of C01 -/
+example : Duplex (exC 0 0 3 2) (exC 0 0 3 2) exAddrA exAddrB exP [1, 2, 3, 4, 5, 6, 7, 8, 9] 1 3 2 3 2 :=
+  duplex_of_links _ _ _ _ _ _ _ _ _ _ _ ⟨by decide, by decide, by decide⟩ ⟨by decide, by decide, by decide⟩ rfl rfl rfl rfl
+    (by decide) (by decide) (by decide) (by decide) (by decide) (by decide) (by decide) (by decide) (by decide)
+    (by decide) (by decide) (by decide) (by decide) (by decide) (by decide) (by decide) (by decide) (by decide)
+
+/-- an instance of `progress_each_round`: blocksizes 2 / 3, STmin 1 ms, after two rounds -/
+example := progress_each_round (exC 2 1 1000000000 1000000000) (exC 3 1 1000000000 1000000000) exAddrA exAddrB 1 2 exP exQ
+  1000001 exDuplex_2_3 (by decide) (by decide) 2
 
 /-! ### the same kind of scenario, evaluated: what the network looks like after `N` rounds -/
 
